@@ -138,25 +138,27 @@ pub fn json_deep(depth: u32) -> Map<String, Value> {
     m
 }
 
+/// Large and poorly compressible: 70-400 KiB of random base64-like text in a few values
+/// (more than any codec's internal block / window of 32, 64 or 128 KiB).
+pub fn gen_metadata_large(rng: &mut Rng) -> Map<String, Value> {
+    let mut m = Map::new();
+    let total = rng.usize(70_000, 400_000);
+    let parts = rng.usize(1, 4);
+    for i in 0..parts {
+        let n = total / parts;
+        let s: String = (0..n)
+            .map(|_| b"ABCDEFGHIJKLMNOPQRSTUVWXYZabcdefghijklmnopqrstuvwxyz0123456789+/"[rng.below(64) as usize] as char)
+            .collect();
+        m.insert(format!("blob{i}"), Value::String(s));
+    }
+    m.insert(String::from("name"), Value::String(json_string(rng)));
+    m
+}
+
 pub fn gen_metadata(rng: &mut Rng) -> Map<String, Value> {
     match rng.below(12) {
         0 => Map::new(),
-        10 => {
-            // large and poorly compressible: 70-400 KiB of random base64-like text in a few values
-            // (more than any codec's internal block / window of 32, 64 or 128 KiB)
-            let mut m = Map::new();
-            let total = rng.usize(70_000, 400_000);
-            let parts = rng.usize(1, 4);
-            for i in 0..parts {
-                let n = total / parts;
-                let s: String = (0..n)
-                    .map(|_| b"ABCDEFGHIJKLMNOPQRSTUVWXYZabcdefghijklmnopqrstuvwxyz0123456789+/"[rng.below(64) as usize] as char)
-                    .collect();
-                m.insert(format!("blob{i}"), Value::String(s));
-            }
-            m.insert(String::from("name"), Value::String(json_string(rng)));
-            m
-        }
+        10 => gen_metadata_large(rng),
         1 => json_deep(60),
         2 => {
             // many keys
